@@ -1299,6 +1299,26 @@ def run(ck: core.Check):
     table = result_type.generate()
     ck.cov["generated_table"] = {"dtypes": table["dtypes"], "numpy": table["numpy"],
                                  "target_kinds": len(table["rt2"]), "onnx_ops": sorted(table["allowed"])}
+    # wiring of Var's operator dunders to the dispatcher + inventory of the dispatcher classes (tie G ->
+    # var_dunders_wired); digests of the covered function bodies vs the committed baseline: a changed body
+    # (an added early check, a cache ...) escalates the seeded parts of this run to the thorough counts
+    boost = False
+    try:
+        import json as _json
+        from pathlib import Path
+
+        from translator import var_dunders
+
+        vd = var_dunders.generate()
+        base_ = _json.loads((Path(__file__).resolve().parent.parent / "c17_source_baseline.json").read_text())["digests"]
+        changed_ = sorted(k for k in set(base_) | set(vd["digests"]) if base_.get(k) != vd["digests"].get(k))
+        boost = bool(changed_)
+        ck.cov["operator_wiring"] = {"dunders": len(vd["wires"]), "opaque": [w[0] for w in vd["wires"] if w[1] == "opaque"],
+                                     "changed_since_baseline": changed_}
+        if boost:
+            ck.notes.append(f"dispatcher / Var operator code differs from the committed baseline: {changed_} - seeded parts run with thorough counts")
+    except Exception as e:  # noqa: BLE001
+        ck.broken("generated", "C17 operator wiring inventory", f"{type(e).__name__}: {e}")
     ck.lean(["SpoxModel.Props.C17"], audit="SpoxModel.Audit.C17")
     if ck.thorough:
         ck.leanchecker(["SpoxModel.Props.C17"])
@@ -1555,7 +1575,7 @@ def run(ck: core.Check):
 
 
     # ------------------------------------------------------------------ symbolic static shapes (named / anonymous dims, unknown rank)
-    sym_cases = gen_symbolic(rng, ck.pick(36, 400), ND)
+    sym_cases = gen_symbolic(rng, 400 if boost else ck.pick(36, 400), ND)
     sym_stats = {"cases": len(sym_cases), "with_runtime_inputs": 0, "dispatch_mismatches": 0}
     # (a) the dispatch decision must not depend on the static shapes (the model is shape-blind)
     sym_disp = [c for c in sym_cases if c.get("kb", "var") == "var" and c.get("form", "op") == "op"
@@ -1601,7 +1621,7 @@ def run(ck: core.Check):
         ck.broken("generator", "C17 symbolic shapes starved", str(sym_stats))
 
     # ------------------------------------------------------------------ expression histories (hidden state)
-    n_hist_v, n_hist_c = ck.pick(150, 1500), ck.pick(250, 2500)
+    n_hist_v, n_hist_c = (600, 1000) if boost else (ck.pick(150, 1500), ck.pick(250, 2500))
     hists_v = list(FIXED_HISTORIES) + [gen_history(rng, True) for _ in range(n_hist_v)]
     hists_c = list(FIXED_HISTORIES) + [gen_history(rng, False) for _ in range(n_hist_c)]
     hist_mism = 0
